@@ -58,7 +58,7 @@ Definition mk_store (tag : option Z) (lo : Z) : store :=
 
 Definition init_bus (tag : option Z) : bus :=
   mkBus (mk_store tag VEC_START) (mk_store tag DRAM_START) (mk_store tag IO1_START)
-        (mk_store tag RAM_START) (mk_store tag IO2_START) (snew (fun _ => 0)) 0 [] timer0.
+        (mk_store tag RAM_START) (mk_store tag IO2_START) (snew (fun _ => 0)) (snew (fun _ => 0)) 0 [] timer0.
 
 Definition init_cpu (tag : option Z) (ovf_ sock_ : bool) : cpu :=
   mkCpu 0 0 0 regs0 (init_bus tag) [] 0 0 ovf_ sock_ [].
